@@ -801,6 +801,9 @@ func rulesC13(c *Ctx) {
 	c13Builders(c)
 	buildersStore(c, "retrypolicy")
 	delegatingBuilders(c, "retrypolicy")
+	// "the configured envelope" is the configuration at Build time: configuring the builder further must not move the
+	// caps, jitter or max duration of a policy already built
+	buildCopiesConfig(c)
 }
 
 func c13GetDelay(c *Ctx) {
